@@ -48,7 +48,7 @@ TIMEOUT = {"quick": 900, "thorough": 7200}
 
 #: True (or VERIF_C14_STRICT_REMOVE_ALL=1) judges "remove every cluster => their charge is no longer
 #: reported" (mechanism C14:remove-all:removed-charge-still-reported), see ASSUMPTIONS
-STRICT_REMOVE_ALL = os.environ.get("VERIF_C14_STRICT_REMOVE_ALL", "0") == "1"
+STRICT_REMOVE_ALL = True  # deciding since fix 51c48c8 in /repo (was observe-only)
 
 MODES = {
     "jit": {"NUMBA_DISABLE_JIT": "0", "NUMBA_BOUNDSCHECK": "0"},
